@@ -457,3 +457,104 @@ theorem string_literal_opaque (a body b st : List Char) (i : Nat) (hs : SafeEnd 
   rw [string_opaque body b st i hst hq hn hnt]
 
 end Logica.Scan
+
+namespace Logica.Scan
+
+theorem dropWhile_nil_iff {p : Char → Bool} : ∀ (l : List Char), l.dropWhile p = [] ↔ ∀ c ∈ l, p c = true
+  | [] => by simp
+  | c :: l => by
+    by_cases hc : p c = true
+    · simp [List.dropWhile_cons, hc, dropWhile_nil_iff l]
+    · simp [List.dropWhile_cons, hc]
+
+theorem length_dropWhile_le' {p : Char → Bool} : ∀ (l : List Char), (l.dropWhile p).length ≤ l.length
+  | [] => by simp
+  | c :: l => by
+    by_cases hc : p c = true
+    · simp only [List.dropWhile_cons, hc, if_true, List.length_cons]
+      have := length_dropWhile_le' (p := p) l
+      omega
+    · simp [List.dropWhile_cons, hc]
+
+theorem dropWhile_append_of_all {p : Char → Bool} (a b : List Char) (h : ∀ c ∈ a, p c = true) :
+    (a ++ b).dropWhile p = b.dropWhile p := by
+  induction a with
+  | nil => rfl
+  | cons c a ih =>
+    have hc := h c (by simp)
+    simp only [List.cons_append, List.dropWhile_cons, hc, if_true]
+    exact ih (fun d hd => h d (by simp [hd]))
+
+theorem dropWhile_append_nonblank {p : Char → Bool} (a b : List Char) (h : a.dropWhile p ≠ []) :
+    (a ++ b).dropWhile p = a.dropWhile p ++ b := by
+  induction a with
+  | nil => simp at h
+  | cons c a ih =>
+    by_cases hc : p c = true
+    · simp only [List.cons_append, List.dropWhile_cons, hc, if_true] at h ⊢
+      exact ih h
+    · simp [List.dropWhile_cons, hc]
+
+/-- **Blanks around a text never matter**: padding with any white space on both sides strips to the same text. -/
+theorem stripSpaces_pad (l r s : List Char) (hl : ∀ c ∈ l, isSp c = true) (hr : ∀ c ∈ r, isSp c = true) :
+    stripSpaces (l ++ s ++ r) = stripSpaces s := by
+  unfold stripSpaces
+  rw [List.append_assoc, dropWhile_append_of_all l _ hl]
+  by_cases hs : s.dropWhile isSp = []
+  · -- nothing but blanks
+    have hall : ∀ c ∈ s, isSp c = true := by
+      intro c hc
+      exact (dropWhile_nil_iff s).mp hs c hc
+    rw [dropWhile_append_of_all s r hall]
+    have hr' : r.dropWhile isSp = [] := (dropWhile_nil_iff r).mpr hr
+    simp [hs, hr']
+  · rw [dropWhile_append_nonblank s r hs, List.reverse_append]
+    rw [dropWhile_append_of_all r.reverse _ (by intro c hc; exact hr c (List.mem_reverse.mp hc))]
+
+theorem stripSpaces_idem (s : List Char) : stripSpaces (stripSpaces s) = stripSpaces s := by
+  have h1 : ∀ (t : List Char), (t.dropWhile isSp).dropWhile isSp = t.dropWhile isSp := by
+    intro t
+    induction t with
+    | nil => rfl
+    | cons c t ih =>
+      by_cases hc : isSp c = true
+      · simp [List.dropWhile_cons, hc, ih]
+      · simp [List.dropWhile_cons, hc]
+  -- the stripped text starts and ends with a non-blank (or is empty)
+  unfold stripSpaces
+  generalize hd : s.dropWhile isSp = d
+  have hdhead : d.dropWhile isSp = d := by rw [← hd]; exact h1 s
+  generalize he : d.reverse.dropWhile isSp = e
+  have hehead : e.dropWhile isSp = e := by rw [← he]; exact h1 _
+  -- e.reverse is the stripped text; its own leading blanks: none, because d has none and e.reverse is a prefix of d
+  have hpre : ∃ t, d = e.reverse ++ t := by
+    have : ∃ u, d.reverse = u ++ e := by
+      rw [← he]
+      exact ⟨d.reverse.takeWhile isSp, (List.takeWhile_append_dropWhile).symm⟩
+    obtain ⟨u, hu⟩ := this
+    refine ⟨u.reverse, ?_⟩
+    have := congrArg List.reverse hu
+    simpa using this
+  obtain ⟨t, ht⟩ := hpre
+  have hfront : (e.reverse).dropWhile isSp = e.reverse := by
+    cases hre : e.reverse with
+    | nil => rfl
+    | cons c rest =>
+      have hc : isSp c = false := by
+        rw [hre] at ht
+        rw [ht] at hdhead
+        cases hct : isSp c with
+        | false => rfl
+        | true =>
+          exfalso
+          simp only [List.cons_append, List.dropWhile_cons, hct, if_true] at hdhead
+          have hlen := congrArg List.length hdhead
+          have hle := length_dropWhile_le' (p := isSp) (rest ++ t)
+          simp only [List.length_cons, List.length_append] at hlen hle
+          omega
+      simp [List.dropWhile_cons, hc]
+  rw [hfront, List.reverse_reverse, hehead]
+
+
+
+end Logica.Scan
